@@ -472,9 +472,9 @@ def h_rollback(delete_files: bool):
                 if not delete_files:
                     h.fail("AMBIG:ambiguous-rollback-deletes-nothing")
                     return
-                owner = wcur.get("p") if phase["loop"] == "files" else mcur.get("p")
+                owners = [x.z for x in (wcur.get("p"), mcur.get("p")) if x is not None]   # the elements currently being visited
                 h.ensure("DEL-OWN:rollback-deletes-only-files-and-markers-this-transaction-wrote",
-                         z3.BoolVal(owner is not None) if owner is None else ev["path"] == owner.z)
+                         z3.Or([ev["path"] == o for o in owners]) if owners else z3.BoolVal(False))
         st.on_event = on_event
 
         def mk_spec(which):
@@ -596,9 +596,24 @@ def h_tx_commit(kind: str, async_edges: bool):
             ops = PList([PDict({"type": "expire_snapshots", "older_than_ms": SInt(c.fresh_int("cutoff"))})])
         else:
             ops = PList([])
-        tx = tx_object(h, st, operations=ops)
+        written, _wc = sym_paths(h, "written_file")
+        markers, _mc = sym_paths(h, "marker")
+        tx = tx_object(h, st, operations=ops, written=written, markers=markers)
         g = {"committed": False, "ambiguous": False, "rollbacks": [], "finishes": 0, "commit_calls": 0, "bases": [], "refreshes": [],
              "async": 0, "after_cp_calls": []}
+
+        def on_event(ev):
+            # g2 (C06): commit() releases markers / files only through _finish_committed (after the commit point) or _rollback;
+            # in particular a conflict retry keeps every marker (the data files stay in flight across attempts)
+            if ev["op"] in ("delete_file", "write_file", "rename"):
+                h.fail("GUAR-tx:g2:commit()-touches-storage-only-through-_commit_file_ops/_finish_committed/_rollback",
+                       detail=f"{ev['op']} performed by commit() itself (markers and written files must survive conflict retries)")
+        st.on_event = on_event
+
+        def kept():
+            return tx.fields.get("_inflight_markers") is markers and tx.fields.get("_written_files") is written \
+                and not markers.fields.get("appended") and not written.fields.get("appended") \
+                and not markers.fields.get("removed_some") and not written.fields.get("removed_some")
         FAULT = SExc("OSError", origin="storage fault", fields={"fault": True})
 
         def refresh(I, fv, args, kwargs):
@@ -663,6 +678,7 @@ def h_tx_commit(kind: str, async_edges: bool):
         def inv(I, env, it):
             ok, rc = env.lookup("retry_count")
             return [("RETRY:no-flip-carried-into-another-attempt", z3.BoolVal(not g["committed"] and not g["ambiguous"] and not g["rollbacks"])),
+                    ("GUAR-tx:g2:markers-and-written-files-are-carried-unchanged-into-every-attempt", z3.BoolVal(kept())),
                     ("RETRY:retry_count-in-range", z3.And(pyops.int_z(rc) >= 0, pyops.int_z(rc) <= 50))]
 
         def havoc(I, env, it):
